@@ -169,7 +169,7 @@ def handle (d : DriverState) (line : String) : DriverState × String :=
       match sstr 3 with
       | "ok" =>
         match parseRe ((sstr 5).splitOn " ") with
-        | some (re, _) => .ok { re := re, ngroups := (sstr 4).toNat?.getD 0, src := str 1, flags := flags }
+        | some (re, _) => .ok { re := re, ngroups := (sstr 4).toNat?.getD 0, src := str 1, flags := (sstr 6).toNat?.getD flags }
         | none => .unsupported
       | "error" => .error
       | _ => .unsupported
